@@ -572,6 +572,9 @@ class _ChainedRunnerIterator(Iterable[_ValueT]):
         with_result=self._with_result,
         with_agg_state=self._with_agg,
         with_agg_result=self._with_agg_result,
+        # Without it the restored iterator does not return the AggregateResult
+        # at the end of the iteration.
+        state=self._with_agg,
     )
 
 
